@@ -719,9 +719,17 @@ class BrokerMachine(object):
                 pass
             parts.append((pid, p.clock, str(getattr(port, 'current_dt', '')), round(float(port.cash), 7), tuple(sorted(pos)),
                           tuple((a, q, oid if str(oid).startswith('rebalance-') else '') for a, q, oid in self.pending_impl(pid)),
+                          _ranks([getattr(o, 'created_dt', None) for o in list(b.open_orders[pid].queue)]),
                           str(p.cash), tuple(sorted((a, mp.qty, str(mp.last), mp.clock) for a, mp in p.pos.items())),
                           tuple((a, q) for a, q, _ in p.pending)))
         return digest(tuple(parts))
+
+
+def _ranks(stamps):
+    """creation stamps of the queued orders as ranks (ties equal): which order is older than which is part of the
+    state, when exactly each was created is not (nothing in the statement ages an order)"""
+    vals = sorted(set(str(x) for x in stamps))
+    return tuple(vals.index(str(x)) for x in stamps)
 
 
 def build(fee, hist, check_last=False, base='USD'):
